@@ -15,6 +15,29 @@ CLAIMED = {
              "against libm each run).",
         technique="Lean 4 proof over a hand-written model + bit-exact differential correspondence with the implementation",
         ref="§5 C14"),
+    "C07": dict(
+        text="Lean 4 theorems over the exact reading of the kinematic core (time-slice congruent to pos+vel*dt mod L and inside the box; "
+             "point-mass chain machine: one moving unit, conserved speed, time stamps equal the event time, no position jump, "
+             "non-decreasing commit times for every event list). The same definitions in binary64 replay every recorded real run of "
+             "the point-mass configurations bit for bit (whole global state after every commit) and every time-slice of every "
+             "committed out-state of all 19 shipped + generated configurations; the property itself is evaluated by an oracle on "
+             "the recorded states of those runs.",
+        note="Composite objects: chain-level claim checked by the run oracle and by C12's model, not by C07's theorems. Physics/random "
+             "choices (lift target, new direction, accept) are oracle inputs of the model. Trusted: Lean kernel + standard axioms, "
+             "runtrace observation harness, MDAnalysis stand-in for two configurations.",
+        technique="Lean 4 proof over a hand-written state-machine model + bit-exact replay of recorded real runs + run-level oracle",
+        ref="§5 C07, §4"),
+    "C17": dict(
+        text="Lean 4 theorems (exact reading): k-th sample time = k*interval (from 0 or one interval), normalised; comparison with the "
+             "end time is the rational comparison; the sample-count loop returns exactly the ticks before the end and terminates; "
+             "the sampled out-state carries the sample time on every moving unit. Binary64 reading of the same clock compared bit for "
+             "bit with the real handlers (unit level, up to 50k ticks) and with sample times/counts of recorded real runs; oracle on "
+             "recorded writes (time stamps equal sample time bit for bit, written state = committed state, count, end time).",
+        note="The float clause (one rounding per step, not growing with k beyond that) is measured by a Fraction oracle on the "
+             "implementation and proved in the rounding-abstract reading of C14 where available. Ties between a sample time and the "
+             "end time are not judged.",
+        technique="Lean 4 proof over a hand-written model + bit-exact differential correspondence + run-level oracle",
+        ref="§5 C17"),
 }
 
 PENDING_REASON = "check not built yet in this session (work in progress; see DESIGN.md §9 for the order)"
